@@ -1,5 +1,88 @@
-(* C19 — placeholder, theorems follow *)
+(* C19 — Client requests are sent one at a time and answered in FIFO order.
+   Statements only; proofs are in Proofs/HttpClientProofs.v.
+
+   run (init https redirectable) evs : the client's bookkeeping after an arbitrary
+   schedule evs of  Enq tag  (Client.request) and  Pass o  (one Client.service();
+   o = Some reply when a complete reply was consumed in that pass).  All theorems
+   quantify over every schedule and every server behaviour (immediate, delayed =
+   Pass None, redirecting, closing = rp_close). *)
 From Hio Require Import Base.Prelude Model.HttpClient Proofs.HttpClientProofs.
-Theorem C19_run_app : forall s evs evs', run s (evs ++ evs') = run (run s evs) evs'.
-Proof. exact run_app. Qed.
-Print Assumptions C19_run_app.
+Local Open Scope N_scope.
+
+(* Queue order is response order: the tags queued so far are exactly the origins
+   of the response entries, then the (at most one) request in flight, then the
+   still queued ones.  Hence one entry per answered request, none skipped, none
+   twice, same order, each carrying its originating request (origin = the tag in
+   the entry's request, or in the first redirect of its history).  On the wire the
+   original requests appear in queue order and at most one is unanswered. *)
+Theorem C19_fifo : forall https redirectable evs,
+  let s := run (init https redirectable) evs in
+  map Some (enqs evs) = map origin (responses s) ++ inflight s ++ map Some (queue s)
+  /\ (length (inflight s) <= 1)%nat
+  /\ (exists rest, enqs evs = wire_reqs (wire s) ++ rest)
+  /\ (length (wire_reqs (wire s)) <= length (responses s) + 1)%nat.
+Proof. exact fifo. Qed.
+Print Assumptions C19_fifo.
+
+(* Redirects are followed transparently with the history attached: completing a
+   reply either delivers an entry (history := the hops so far) or, for a followed
+   redirect, appends exactly that hop and delivers nothing; *)
+Theorem C19_redirect_step : forall s r,
+  (exists err c, complete s r = deliver s (rp_status r) err c)
+  \/ (redirects (complete s r) = redirects s ++ [(rp_status r, latest s)]
+      /\ responses (complete s r) = responses s /\ waited (complete s r) = true
+      /\ is_redirect (rp_status r) = true /\ redirectable s = true).
+Proof. exact complete_cases. Qed.
+Print Assumptions C19_redirect_step.
+
+(* ... and in every reachable state every entry's history consists of redirect
+   statuses only, only its first hop carries a request tag, and an entry with a
+   history carries no tag itself (the originating request is in the history). *)
+Theorem C19_history_attached : forall https redirectable evs,
+  Forall good_entry (responses (run (init https redirectable) evs)).
+Proof. exact history_attached. Qed.
+Print Assumptions C19_history_attached.
+
+(* https -> http is refused: an https client stays on https connectors whatever
+   the servers answer, and everything it ever sent went over https; *)
+Theorem C19_https_never_downgraded : forall redirectable evs,
+  let s := run (init true redirectable) evs in
+  https s = true /\ Forall (fun w => w_https w = true) (wire s).
+Proof. exact https_kept. Qed.
+Print Assumptions C19_https_never_downgraded.
+
+(* ... the refused redirect is delivered as the final, errored response of its
+   request with the history so far; nothing is transmitted, the connector stays. *)
+Theorem C19_downgrade_refused : forall s r l h,
+  https s = true -> redirectable s = true -> is_redirect (rp_status r) = true ->
+  rp_loc r = Some l -> l_host l = Some h -> l_https l = false ->
+  complete s r = deliver s (rp_status r) true (cut s || rp_close r).
+Proof. exact downgrade_refused. Qed.
+Print Assumptions C19_downgrade_refused.
+
+(* Non-vacuity: three queued requests; the first is redirected twice (new host,
+   then relative), the second is refused an https -> http... on an http client it
+   is followed; the third gets a delayed plain answer. *)
+Example C19_example :
+  let rel := {| l_host := None; l_https := false |} in
+  let evs := [Enq 5; Enq 6; Enq 7; Pass None;
+              Pass (Some {| rp_id := 0; rp_status := 301; rp_loc := Some {| l_host := Some 1; l_https := false |}; rp_close := false |});
+              Pass None;
+              Pass (Some {| rp_id := 1; rp_status := 307; rp_loc := Some rel; rp_close := false |});
+              Pass (Some {| rp_id := 2; rp_status := 200; rp_loc := None; rp_close := false |});
+              Pass None; Pass None;
+              Pass (Some {| rp_id := 3; rp_status := 404; rp_loc := None; rp_close := false |}); Pass None] in
+  let s := run (init false true) evs in
+  map origin (responses s) = [Some 5; Some 6] /\ inflight s = [Some 7] /\ queue s = [] /\
+  map e_history (responses s) = [[(301, Some 5); (307, None)]; []] /\
+  wire_reqs (wire s) = [5; 6; 7] /\ map w_conn (wire s) = [0; 1; 1; 1; 1].
+Proof. vm_compute. repeat split. Qed.
+
+Example C19_example_refused :
+  let evs := [Enq 1; Enq 2; Pass None;
+              Pass (Some {| rp_id := 0; rp_status := 302; rp_loc := Some {| l_host := Some 1; l_https := false |}; rp_close := false |});
+              Pass None] in
+  let s := run (init true true) evs in
+  map (fun e => (e_status e, e_errored e, e_tag e)) (responses s) = [(302, true, Some 1)] /\
+  wire_reqs (wire s) = [1; 2] /\ map w_https (wire s) = [true; true].
+Proof. vm_compute. repeat split. Qed.
